@@ -17,7 +17,14 @@
 (***************************************************************************)
 EXTENDS IterClient
 
-CONSTANTS Sticky, CloseInFinally, Fams, MaxN, Upo
+CONSTANTS Sticky, CloseInFinally, Fams, MaxN, Upo,
+          ParamsFirst,  \* FALSE: the server (pywbem_mock MainProvider.Open...)
+                        \*   checks that pull operations are enabled BEFORE it
+                        \*   validates the open parameters (the tree);
+                        \*   TRUE: regression variant, parameters first
+          TimeoutErr    \* what a rejected OperationTimeout surfaces as:
+                        \*   "CIMError" (design) | "ValueError" (pinned tree:
+                        \*   broken format string in _validate_open_params)
 
 VARIABLES flag,    \* family -> "N" | "T" | "F"
           srvOn,   \* server supports pull
@@ -37,6 +44,13 @@ PullsFor(n, m) == IF n <= m THEN 0 ELSE ((n - 1) \div m)
 
 Wanted(c) == IF c.consume = "exhaust" THEN Len(c.trad) ELSE Min(c.k, Len(c.trad))
 
+(* server side: _validate_open_params (order of the checks as in the mock) *)
+ParamVerdict(c) ==
+  IF c.fqc = "qonly" THEN <<"CIMError", 4>>
+  ELSE IF c.fqc = "badlang" THEN <<"CIMError", 14>>
+  ELSE IF c.ot = "big" THEN <<TimeoutErr, IF TimeoutErr = "CIMError" THEN 4 ELSE 0>>
+  ELSE <<"ok", 0>>
+
 (* traditional fallback part of the generator *)
 FallbackPart(c) ==
   IF c.fq \/ c.coe THEN Out("ValueError", 0, <<>>, TRUE, 0)
@@ -51,9 +65,15 @@ ImplCall(fl, on, c) ==
   THEN <<Out(IF c.moc = "badtype" THEN "TypeError" ELSE "ValueError",
              0, <<>>, TRUE, 0), fl>>
   ELSE IF fl \in {"N", "T"}
-  THEN IF ~on
+  THEN IF ParamsFirst /\ ParamVerdict(c)[1] # "ok"
+       THEN \* neither NOT_SUPPORTED nor FAILED: raised, nothing learned
+            <<Out(ParamVerdict(c)[1], ParamVerdict(c)[2], <<>>, TRUE, 0), fl>>
+       ELSE IF ~on
        THEN IF fl = "N" THEN <<FallbackPart(c), "F">>
             ELSE <<Out("CIMError", NOT_SUPPORTED, <<>>, TRUE, 0), fl>>
+       ELSE IF ParamVerdict(c)[1] # "ok"
+            THEN <<Out(ParamVerdict(c)[1], ParamVerdict(c)[2], <<>>, TRUE, 0),
+                   fl>>
        ELSE IF ~c.tradok
             THEN \* Open raises the operation's own error
                  <<Out("CIMError", 5, <<>>, TRUE, 0), fl>>
@@ -75,22 +95,34 @@ ImplCall(fl, on, c) ==
 FaultedIn(fl, on, c) ==
   /\ ~(c.consume # "exhaust" /\ c.k = 0)
   /\ c.moc = "ok" /\ fl \in {"N", "T"} /\ on /\ c.tradok /\ c.fault > 0
+  /\ ParamVerdict(c)[1] = "ok"
   /\ PullsFor(IF c.consume = "exhaust" THEN Len(c.trad) ELSE Wanted(c),
               c.mocn) >= c.fault
 
-Call(fam, fq, coe, moc, mocn, n, tradok, consume, k, fault) ==
-  [fam |-> fam, fq |-> fq, coe |-> coe, moc |-> moc, mocn |-> mocn,
+Call(fam, fqc, ot, coe, moc, mocn, n, tradok, consume, k, fault) ==
+  [fam |-> fam, fq |-> fqc # "none", fqc |-> fqc, ot |-> ot, coe |-> coe,
+   moc |-> moc, mocn |-> mocn,
    trad |-> [i \in 1..n |-> i], tradok |-> tradok, consume |-> consume,
    k |-> k, fault |-> fault]
 
-Calls ==
-  {Call(f, fq, coe, moc, m, n, tok, cs, k, fl) :
-     f \in Fams, fq \in BOOLEAN, coe \in BOOLEAN,
+(* the open-parameter classes interact with the learned flag, the server   *)
+(* capability, ContinueOnError and a failing operation; they are crossed   *)
+(* with those dimensions only (CallsParams), the remaining dimensions keep *)
+(* the two classes that never reject (CallsBase)                           *)
+CallsBase ==
+  {Call(f, fqc, "none", coe, moc, m, n, tok, cs, k, fl) :
+     f \in Fams, fqc \in {"none", "fql"}, coe \in BOOLEAN,
      moc \in {"ok", "zero", "badtype"}, m \in 1..2, n \in 0..MaxN,
      tok \in BOOLEAN, cs \in {"exhaust", "close"}, k \in 0..2, fl \in 0..1}
+CallsParams ==
+  {Call(f, fqc, ot, coe, "ok", 1, n, tok, cs, 1, 0) :
+     f \in Fams, fqc \in FiltClasses, ot \in OtClasses, coe \in BOOLEAN,
+     n \in {0, MaxN}, tok \in BOOLEAN, cs \in {"exhaust", "close"}}
+Calls == CallsBase \cup CallsParams
 
 Event(c, o, fresh, faulted) ==
   [op |-> "Iter", fam |-> c.fam, upo |-> Upo, srv |-> srvOn, fq |-> c.fq,
+   fqc |-> c.fqc, ot |-> c.ot,
    coe |-> c.coe, moc |-> c.moc, mocn |-> c.mocn, trad |-> c.trad,
    tradok |-> c.tradok, consume |-> c.consume, k |-> c.k, faulted |-> faulted,
    res |-> o.res, code |-> o.code, yielded |-> o.yielded,
